@@ -297,4 +297,42 @@ pydantic: OpenAPI `nullable: true` under `--strict-nullable` gives `n: Optional[
 example : render ⟨.v1, .flag, true, .none, .scalar, false, ⟨true, false, false, false, false, false⟩⟩ =
     ⟨true, false, .no, .fieldReq⟩ := by decide
 
+/-! ### Member order — the class must exist before any clause can hold
+
+`DataClass.__init__` / `Struct.__init__` sort the members stably by `_has_field_assignment`
+(`False` first); Python's dataclasses and msgspec refuse a member without default after one with. -/
+
+/-- dataclasses: the sort key says "has a default" exactly when the template writes ` = …`, for
+every vector — so after sorting no member without default follows one with a default. -/
+theorem dataclass_sort_key_matches_rendering (v : Vec) (hv : v.valid = true) (hk : v.kind = .dc) :
+    sortKey v.kind (fromSchema v) = some ((render v).asg != .none) := by
+  have h := sortKeyExact v hv
+  have hm : msKeyMismatchR v.reduce = false := by
+    have hk' : v.reduce.kind = .dc := hk
+    simp [msKeyMismatchR, hk']
+  cases hs : sortKey v.kind (fromSchema v) with
+  | none => rw [hk] at hs; simp [sortKey] at hs
+  | some b => rw [(h b hs).mpr hm]; rfl
+
+/-- msgspec: the sort key agrees with what the template writes EXACTLY outside `msKeyMismatch`
+(the defaults appended for a required nullable member, and `None` defaults the key believes
+stripped): there a member rendered with ` = None` is sorted among the members without default,
+and msgspec refuses the Struct when a required member follows it. -/
+theorem msgspec_sort_key_exact (v : Vec) (hv : v.valid = true) (hk : v.kind = .ms) :
+    sortKey v.kind (fromSchema v) = some ((render v).asg != .none) ↔ msKeyMismatch v = false := by
+  have h := sortKeyExact v hv
+  cases hs : sortKey v.kind (fromSchema v) with
+  | none => rw [hk] at hs; simp [sortKey] at hs
+  | some b =>
+    constructor
+    · intro he
+      have hb : b = ((render v).asg != .none) := Option.some.inj he
+      exact (h b hs).mp hb
+    · intro hm
+      rw [(h b hs).mpr hm]; rfl
+
+theorem msgspec_sort_key_witness :
+    sortKey d7mWitness.kind (fromSchema d7mWitness) = some false ∧
+    (render d7mWitness).asg = .lit .none ∧ msKeyMismatch d7mWitness = true := by decide
+
 end Dcg.Props.C05
